@@ -18,6 +18,7 @@ import (
 	"sort"
 	"strings"
 	"sync"
+	"sync/atomic"
 	"time"
 
 	"github.com/jech/galene/group"
@@ -142,9 +143,11 @@ func (sc *scenario) fold(s *slot) {
 		return
 	}
 	evs := s.c.EventsFrom(s.evIdx)
+	base := s.evIdx
 	s.evIdx += len(evs)
-	for _, e := range evs {
+	for ei, e := range evs {
 		m := e.M
+		_ = base + ei
 		switch m.Str("type") {
 		case "joined":
 			switch m.Str("kind") {
@@ -157,6 +160,15 @@ func (sc *scenario) fold(s *slot) {
 				s.vgroup = ""
 			}
 		case "user":
+			if s.vgroup == "" {
+				// between 'joined leave' and the next 'joined join' this client is in no
+				// session: what still arrives was queued for the session it has left (galene
+				// delivers it when the client has ALREADY been admitted again - leave and join
+				// handled back to back - and the group has the same name).  It concerns a list
+				// the client has discarded; the next 'joined join' starts a fresh one.
+				sc.run.Count("user_events_between_sessions", 1)
+				continue
+			}
 			id := m.Str("id")
 			info := userInfo{Username: m.Str("username"), Perms: normPerms(m.StrList("permissions"))}
 			if d, ok := m["data"].(map[string]any); ok {
@@ -188,13 +200,27 @@ func (sc *scenario) fold(s *slot) {
 				sc.run.Count("user_change_events", 1)
 			case "delete":
 				if _, ok := s.view[id]; !ok {
-					if s.everSeen[id] && s.sessions > 1 {
-						// the departure of a member this client knew in an earlier session of the
-						// same group can reach it after it left and joined again: harmless for a
-						// client that ignores deletes of unknown ids, and the view still converges
+					sc.mu.Lock()
+					wasThere := other != nil && other.tried[s.vgroup]
+					sc.mu.Unlock()
+					if s.sessions > 1 && (s.everSeen[id] || wasThere) {
+						// DelClient notifies, outside the group lock, the members it found when it
+						// removed the leaver.  A client that was one of them, left and joined again
+						// in the meantime gets the 'delete' in its NEW session, where the leaver is
+						// not listed (it may even never have been told about the leaver: the 'add'
+						// queued for its earlier session is dropped when it leaves).  Harmless for
+						// a client that ignores deletes of unknown ids: the view still converges,
+						// which is what the property demands and what the checkpoint decides.
 						sc.run.Count("stale_delete_after_rejoin", 1)
 					} else {
-						sc.fail("delete-for-absent-id", fmt.Sprintf("%s received 'delete' for %s which is not in its list (announced twice, or never added)", s.c.ID, id))
+						var recent []string
+						all := s.c.EventsFrom(0)
+						for _, pe := range all[max(0, base+ei-400) : base+ei+1] {
+							if t := pe.M.Str("type"); t == "joined" || (t == "user" && pe.M.Str("id") == id) {
+								recent = append(recent, fmt.Sprintf("%s/%s/%s%s", t, pe.M.Str("kind"), pe.M.Str("group"), pe.M.Str("id")))
+							}
+						}
+						sc.fail("delete-for-absent-id", fmt.Sprintf("%s received 'delete' for %s which is not in its list (announced twice, or never added); sessions so far %d; its recent 'joined' events and events about that id: %v", s.c.ID, id, s.sessions, recent[max(0, len(recent)-30):]))
 					}
 				}
 				delete(s.view, id)
@@ -374,7 +400,7 @@ func (sc *scenario) joinAs(s *slot, g, user, pw string) {
 		return
 	}
 	reply, ok := s.c.WaitForFrom(from, func(m vclient.Msg) bool {
-		return m.Str("type") == "joined" && (m.Str("kind") == "join" || m.Str("kind") == "fail")
+		return m.Str("type") == "joined" && m.Str("group") == g && (m.Str("kind") == "join" || m.Str("kind") == "fail")
 	}, 30*time.Second)
 	if !ok {
 		if !s.c.WaitClosed(3 * time.Second) {
@@ -391,12 +417,16 @@ func (sc *scenario) joinAs(s *slot, g, user, pw string) {
 	}
 }
 
-// storm: every client leaves and rejoins ONE group in a tight loop, each from its own
-// goroutine, so that departures and arrivals overlap inside the server all the time: a
-// joiner that slips between "who must be told that L is gone" and L's removal would keep L
-// for good.  Judged by the ordinary checkpoint afterwards.
+// storm: two residents stay in two groups A and B and change their own data all the time
+// (a 'change' event to every member of their group); every other client alternates between
+// A and B in a tight loop from its own goroutine, so that departures, arrivals and change
+// notifications overlap inside the server all the time: a joiner that slips between "who
+// must be told that L is gone" and L's removal would keep L for good, and a notification
+// of the group just left that is delivered in the next group's session names somebody who
+// is not there.  Judged by the ordinary fold and checkpoint afterwards.
 func (sc *scenario) storm(r *rand.Rand, cycles int) {
-	g := groupNames[r.IntN(3)]
+	a := r.IntN(3)
+	gs := []string{groupNames[a], groupNames[(a+1)%3]}
 	for _, s := range sc.slots {
 		if s.c != nil {
 			if closed, _ := s.c.Closed(); closed {
@@ -407,9 +437,37 @@ func (sc *scenario) storm(r *rand.Rand, cycles int) {
 			sc.connect(s, r)
 		}
 	}
-	var wg sync.WaitGroup
+	var wg, rwg sync.WaitGroup
+	var stop atomic.Bool
 	for i, s := range sc.slots {
 		if s.c == nil {
+			continue
+		}
+		if i < 2 {
+			// resident of gs[i]
+			if s.joined && s.group != gs[i] {
+				if !s.c.Leave(s.group) {
+					continue
+				}
+				s.joined = false
+			}
+			if !s.joined {
+				sc.joinAs(s, gs[i], users[i].name, users[i].pw)
+			}
+			if !s.joined {
+				continue
+			}
+			rwg.Add(1)
+			go func(s *slot) {
+				defer rwg.Done()
+				for n := 0; !stop.Load() && !sc.bad; n++ {
+					if s.c.Send(vclient.Msg{"type": "useraction", "kind": "setdata", "source": s.c.ID, "dest": s.c.ID, "value": map[string]any{"storm": float64(n % 7)}}) != nil {
+						return
+					}
+					sc.run.Count("storm_changes", 1)
+					time.Sleep(500 * time.Microsecond)
+				}
+			}(s)
 			continue
 		}
 		wg.Add(1)
@@ -422,21 +480,24 @@ func (sc *scenario) storm(r *rand.Rand, cycles int) {
 					return
 				}
 				if s.joined {
-					sc.note(fmt.Sprintf("%s leaves %s", s.c.ID, s.group))
-					if s.c.Leave(s.group) {
-						s.joined = false
-						sc.run.Count("leaves", 1)
-					} else {
+					// leave and join are sent back to back: the server may handle both before it
+					// delivers what was queued for this client in the group it is leaving
+					sc.note(fmt.Sprintf("%s leaves %s and, without waiting,", s.c.ID, s.group))
+					if s.c.Send(vclient.Msg{"type": "join", "kind": "leave", "group": s.group}) != nil {
 						return
 					}
+					s.joined = false
+					sc.run.Count("leaves", 1)
 				}
-				sc.joinAs(s, g, u.name, u.pw)
+				sc.joinAs(s, gs[(i+k)%2], u.name, u.pw)
 				sc.run.Eval(1)
 				sc.run.Count("storm_cycles", 1)
 			}
 		}(i, s)
 	}
 	wg.Wait()
+	stop.Store(true)
+	rwg.Wait()
 }
 
 func (sc *scenario) act(s *slot, r *rand.Rand) {
